@@ -50,7 +50,10 @@
   is ≤ now (contract of the semaphore, as `sem > 0` is for a successful P).
 
   GHOSTS.  `held`, `wOwner`, `rOwners`, `sp` as in MuQ.  `secStart` = the data at the beginning of the
-  current write section; `nwViol` becomes true when a write section that ends with
+  current write section, i.e. when the mutex was last ACQUIRED in write mode on behalf of the client
+  (return of nsync_mu_lock / successful trylock / a nsync_mu_wait that did release and re-acquire; a
+  nsync_mu_wait that returns at once, `MW.first`, never released, so the section continues and the
+  snapshot is kept); `nwViol` becomes true when a write section that ends with
   nsync_mu_unlock_without_wakeup has made the condition of a queued waiter true (the contract of that
   call, mu_wait.c:296-304).
 
@@ -678,7 +681,11 @@ def stepRet (s : State) (t : Tid) (a : Api) (res : Res) : Except String State :=
   | .mwRet c cit, .wait cnd dl note, .outc o =>
     if cnd ≠ c.cond ∨ dl ≠ c.dl ∨ note ≠ c.note then .error "return of another call than the one in progress"
     else if o ≠ (if cit then .ok else c.outc) then .error "nsync_mu_wait_with_deadline returned a result the model does not predict"
-    else .ok (setHeld (dropW (setPc s t .idle) c.w) t (some c.l))
+    else
+      -- `c.first`: the call returns without ever having released the mutex (condition NULL or true at
+      -- once, mu_wait.c:170-176) — the caller's write section simply continues: keep its snapshot.
+      let s1 := setHeld (dropW (setPc s t .idle) c.w) t (some c.l)
+      .ok (if c.first then { s1 with secStart := s.secStart } else s1)
   | _, _, _ => .error "return not prescribed at this program point"
 
 def stepLd (s : State) (t : Tid) (o : Ord) (loc : Loc) (obs : Nat) : Except String State :=
